@@ -466,7 +466,7 @@ package data
 
 // equal extents give equal suffix products, digits and element counts (two arrays of one shape)
 //@ induct [C02.lemma-pfrom-ext] (d []int, e []int, N int) n : implies(n <= N && forall(k, 0, N, d[k] == e[k]), forall(k, N-n, N+1, pfrom(d, k, N) == pfrom(e, k, N)))
-//@ induct [C02.lemma-isdigits-ext] using C02.lemma-pfrom-ext(d, e, N, N) (v []int, d []int, e []int, j int, N int) z : implies(N >= 0 && forall(k, 0, N, d[k] == e[k]) && isdigits(v, d, j, N), isdigits(v, e, j, N))
+//@ induct [C02.lemma-rav-ext] using C02.lemma-pfrom-ext(d, e, N, N) (v []int, d []int, e []int, N int) n : implies(n <= N && forall(k, 0, N, d[k] == e[k]), rav(v, d, N, n) == rav(v, e, N, n))
 //@ induct [C02.lemma-iprod-ext] (d []int, e []int) n : implies(forall(k, 0, n, d[k] == e[k]), iprod(d, n) == iprod(e, n))
 // General-rank interface model ("ndmodel rowmajor"): an array x of unknown back-end has
 // extents x.shape - the slice its Shape() returns (x.rank entries, an object that exists at
@@ -477,10 +477,6 @@ package data
 //@ iface rowmajor:Contiguous(x) returns (b)
 //@   ensures iff(b, x.g_contig == 1)
 //@   assigns nothing
-//@ iface rowmajor:Set(x, loc, val)
-//@   requires len(loc) == x.rank && forall(k, 0, x.rank, 0 <= loc[k] && loc[k] < x.shape[k])
-//@   assigns x.cells
-//@   ensures forall(j, 0, iprod(x.shape, x.rank), x.at(j) == ite(isdigits(loc, x.shape, j, x.rank), val, old(x.at(j))))
 //@ iface rowmajor:NewIndex(x, val) returns (r)
 //@   fresh r
 //@   ensures len(r) == x.rank && forall(k, 0, x.rank, r[k] == val)
@@ -488,7 +484,17 @@ package data
 //@ iface rowmajor:Get(x, loc) returns (v)
 //@   requires len(loc) == x.rank && forall(k, 0, x.rank, 0 <= loc[k] && loc[k] < x.shape[k])
 //@   ensures forall(j, 0, iprod(x.shape, x.rank), implies(forall(k, 0, x.rank, loc[k] == rmc(x.shape, j, x.rank, k)), v == x.at(j)))
-//@   ensures forall(j, 0, iprod(x.shape, x.rank), implies(isdigits(loc, x.shape, j, x.rank), v == x.at(j)))
+//@   assigns nothing
+// Get and Set stated by position ("ndmodel rowmajor/rav"): the index vector loc addresses the
+// row-major element rav(loc) = sum loc[k]*prod(shape[k+1:]). For Get this is equivalent to the
+// digit form above by C02.lemma-rav-of-digits and C02.lemma-digits-unique.
+//@ iface rowmajor/rav:Set(x, loc, val)
+//@   requires len(loc) == x.rank && forall(k, 0, x.rank, 0 <= loc[k] && loc[k] < x.shape[k])
+//@   assigns x.cells
+//@   ensures forall(j, 0, iprod(x.shape, x.rank), x.at(j) == ite(j == rav(loc, x.shape, x.rank, x.rank), val, old(x.at(j))))
+//@ iface rowmajor/rav:Get(x, loc) returns (v)
+//@   requires len(loc) == x.rank && forall(k, 0, x.rank, 0 <= loc[k] && loc[k] < x.shape[k])
+//@   ensures v == x.at(rav(loc, x.shape, x.rank, x.rank))
 //@   assigns nothing
 //@ iface rowmajor:CopyFrom(x, other)
 //@   requires other != nil && other.rank == x.rank && forall(k, 0, x.rank, other.shape[k] == x.shape[k])
@@ -625,21 +631,21 @@ package data
 //@   ensures r != nil && r.rank == len(dims) && r.g_shapeid == dims.id && forall(j, 0, len(data), r.at(j) == data[j])
 
 //@ func AddTo{T}Array(dest, source)
-//@   ndmodel rowmajor
+//@   ndmodel rowmajor/rav
 //@   simplify entry-ids
 //@   bounded rank <= 3 (mixed-radix successor lemma per rank)
-//@   uses C02.lemma-digits-unique
 //@   instantiate C02.lemma-iprod-is-pfrom0(dest.shape, dest.rank, 0)
 //@   instantiate C02.lemma-pfrom-positive(dest.shape, dest.rank, dest.rank)
 //@   instantiate C02.lemma-iprod-ext(dest.shape, source.shape, dest.rank)
-//@   loop 1 headinstantiate C02.lemma-isdigits-ext(idx, dest.shape, source.shape, pos, dest.rank, 0)
+//@   loop 1 headinstantiate C02.lemma-rav-of-digits(idx, dest.shape, pos, dest.rank, 0)
+//@   loop 1 headinstantiate C02.lemma-rav-ext(idx, dest.shape, source.shape, dest.rank, dest.rank)
 //@   loop 1 instantiate C02.lemma-successor-1(pre(seq(idx)), idx, dest.shape, pos, 0)
 //@   loop 1 instantiate C02.lemma-successor-2(pre(seq(idx)), idx, dest.shape, pos, 0)
 //@   loop 1 instantiate C02.lemma-successor-3(pre(seq(idx)), idx, dest.shape, pos, 0)
 //@   requires dest != nil && source != nil && dest != source && 1 <= dest.rank && dest.rank <= 3 && source.rank == dest.rank && forall(k, 0, dest.rank, dest.shape[k] >= 1 && source.shape[k] == dest.shape[k])
-//@   requires dest.g_unrollid != source.g_unrollid
+//@   requires dest.g_unrollid != source.g_unrollid && dest.g_unrollid != dest.g_shapeid && dest.g_unrollid != source.g_shapeid && source.g_unrollid != dest.g_shapeid && source.g_unrollid != source.g_shapeid
 //@   assigns dest.cells
-//@   callsite CopyFrom [C02.addto-stores-through-the-interface] arg0 == dest
+//@   callsite iface:CopyFrom [C02.addto-stores-through-the-interface] arg0 == dest
 //@   ensures [C02.addto-elementwise-general-path] implies(!(dest.g_contig == 1 && source.g_contig == 1), forall(j, 0, iprod(dest.shape, dest.rank), dest.at(j) == old(dest.at(j)) + source.at(j)))
 //@   ensures [C02.addto-elementwise-fast-path] implies(dest.g_contig == 1 && source.g_contig == 1, forall(j, 0, iprod(dest.shape, dest.rank), dest.at(j) == old(dest.at(j)) + source.at(j)))
 //@   canary [C02.addto-canary] implies(iprod(dest.shape, dest.rank) >= 1, dest.at(0) == old(dest.at(0)))
@@ -648,26 +654,26 @@ package data
 //@   loop 1 prestep [C02.addto-step-value] dest.at(pre(pos)) == pre(dest.at(pos)) + source.at(pre(pos))
 //@   loop 1 prestep [C02.addto-step-frame] forall(j, 0, size, implies(j != pre(pos), dest.at(j) == pre(dest.at(j))))
 //@   loop 1 invariant 0 <= pos && pos <= size && size == iprod(dest.shape, dest.rank) && len(idx) == dest.rank && shape.id == dest.g_shapeid && len(shape) == dest.rank
-//@   loop 1 invariant isdigits(idx, dest.shape, pos, dest.rank)
+//@   loop 1 invariant forall(k, 0, dest.rank, idx[k] == rmc(dest.shape, pos, dest.rank, k))
 //@   loop 1 invariant forall(j, 0, pos, dest.at(j) == old(dest.at(j)) + source.at(j)) && forall(j, pos, size, dest.at(j) == old(dest.at(j)))
 
 // fn is modelled as a pure, deterministic function of its argument (A-PURE-FN)
 //@ func ApplyFunc1{T}(dest, source, fn)
-//@   ndmodel rowmajor
+//@   ndmodel rowmajor/rav
 //@   simplify entry-ids
 //@   bounded rank <= 3 (mixed-radix successor lemma per rank)
-//@   uses C02.lemma-digits-unique
 //@   instantiate C02.lemma-iprod-is-pfrom0(dest.shape, dest.rank, 0)
 //@   instantiate C02.lemma-pfrom-positive(dest.shape, dest.rank, dest.rank)
 //@   instantiate C02.lemma-iprod-ext(dest.shape, source.shape, dest.rank)
-//@   loop 1 headinstantiate C02.lemma-isdigits-ext(idx, dest.shape, source.shape, pos, dest.rank, 0)
+//@   loop 1 headinstantiate C02.lemma-rav-of-digits(idx, dest.shape, pos, dest.rank, 0)
+//@   loop 1 headinstantiate C02.lemma-rav-ext(idx, dest.shape, source.shape, dest.rank, dest.rank)
 //@   loop 1 instantiate C02.lemma-successor-1(pre(seq(idx)), idx, dest.shape, pos, 0)
 //@   loop 1 instantiate C02.lemma-successor-2(pre(seq(idx)), idx, dest.shape, pos, 0)
 //@   loop 1 instantiate C02.lemma-successor-3(pre(seq(idx)), idx, dest.shape, pos, 0)
 //@   requires dest != nil && source != nil && dest != source && 1 <= dest.rank && dest.rank <= 3 && source.rank == dest.rank && forall(k, 0, dest.rank, dest.shape[k] >= 1 && source.shape[k] == dest.shape[k])
-//@   requires dest.g_unrollid != source.g_unrollid
+//@   requires dest.g_unrollid != source.g_unrollid && dest.g_unrollid != dest.g_shapeid && dest.g_unrollid != source.g_shapeid && source.g_unrollid != dest.g_shapeid && source.g_unrollid != source.g_shapeid
 //@   assigns dest.cells
-//@   callsite CopyFrom [C02.applyfunc-stores-through-the-interface] arg0 == dest
+//@   callsite iface:CopyFrom [C02.applyfunc-stores-through-the-interface] arg0 == dest
 //@   ensures [C02.applyfunc-elementwise-general-path] implies(!(dest.g_contig == 1 && source.g_contig == 1), forall(j, 0, iprod(dest.shape, dest.rank), dest.at(j) == fn(source.at(j))))
 //@   ensures [C02.applyfunc-elementwise-fast-path] implies(dest.g_contig == 1 && source.g_contig == 1, forall(j, 0, iprod(dest.shape, dest.rank), dest.at(j) == fn(source.at(j))))
 //@   canary [C02.applyfunc-canary] implies(iprod(dest.shape, dest.rank) >= 1, dest.at(0) == old(dest.at(0)))
@@ -676,12 +682,12 @@ package data
 //@   loop 1 prestep [C02.applyfunc-step-value] dest.at(pre(pos)) == fn(source.at(pre(pos)))
 //@   loop 1 prestep [C02.applyfunc-step-frame] forall(j, 0, size, implies(j != pre(pos), dest.at(j) == pre(dest.at(j))))
 //@   loop 1 invariant 0 <= pos && pos <= size && size == iprod(dest.shape, dest.rank) && len(idx) == dest.rank && shape.id == dest.g_shapeid && len(shape) == dest.rank
-//@   loop 1 invariant isdigits(idx, dest.shape, pos, dest.rank)
+//@   loop 1 invariant forall(k, 0, dest.rank, idx[k] == rmc(dest.shape, pos, dest.rank, k))
 //@   loop 1 invariant forall(j, 0, pos, dest.at(j) == fn(source.at(j))) && forall(j, pos, size, dest.at(j) == old(dest.at(j)))
 
 //@ func Scale{T}Array(dest, source, scale)
 //@   ndmodel rowmajor
 //@   requires dest != nil && source != nil && dest != source && 1 <= dest.rank && dest.rank <= 3 && source.rank == dest.rank && forall(k, 0, dest.rank, dest.shape[k] >= 1 && source.shape[k] == dest.shape[k])
-//@   requires dest.g_unrollid != source.g_unrollid
+//@   requires dest.g_unrollid != source.g_unrollid && dest.g_unrollid != dest.g_shapeid && dest.g_unrollid != source.g_shapeid && source.g_unrollid != dest.g_shapeid && source.g_unrollid != source.g_shapeid
 //@   assigns dest.cells
 //@   ensures [C02.scale-elementwise] forall(j, 0, iprod(dest.shape, dest.rank), dest.at(j) == source.at(j) * scale)
